@@ -1,1 +1,460 @@
-//! c03 harnesses
+//! C03 — SPSC channels are linearizable FIFOs conserving every element.
+//!
+//! (K) sequential refinement: symbolic histories of push/pop on the three queue types against a
+//!     FIFO model (every fill level and ring phase is reached through the API).
+//! (S, feature `sched`) schedule-symbolic harnesses over the instrumented atomics drop-in: one
+//!     thread is preempted before any of its shared-memory operations (atomics *and* slot
+//!     accesses); in the gap the other thread runs complete operations, chosen by the solver.
+
+use crate::common::*;
+use iceoryx2_bb_lock_free::spsc::index_queue::*;
+use iceoryx2_bb_lock_free::spsc::queue::Queue as SpscQueue;
+use iceoryx2_bb_lock_free::spsc::safely_overflowing_index_queue::*;
+
+pub enum PushR {
+    Ok,
+    Full,
+    Evicted(u64),
+}
+
+pub trait SpscLike {
+    const CAP: usize;
+    const OVERFLOW: bool;
+    fn mk() -> Self;
+    fn do_push(&self, v: u64) -> PushR;
+    fn do_pop(&self) -> Option<u64>;
+    fn q_len(&self) -> usize;
+    fn q_empty(&self) -> bool;
+    fn q_full(&self) -> bool;
+    fn q_cap(&self) -> usize;
+}
+
+impl<const C: usize> SpscLike for FixedSizeIndexQueue<C> {
+    const CAP: usize = C;
+    const OVERFLOW: bool = false;
+    fn mk() -> Self { Self::new() }
+    fn do_push(&self, v: u64) -> PushR { if unsafe { self.push(v) } { PushR::Ok } else { PushR::Full } }
+    fn do_pop(&self) -> Option<u64> { unsafe { self.pop() } }
+    fn q_len(&self) -> usize { self.len() }
+    fn q_empty(&self) -> bool { self.is_empty() }
+    fn q_full(&self) -> bool { self.is_full() }
+    fn q_cap(&self) -> usize { self.capacity() }
+}
+
+impl<const C: usize> SpscLike for FixedSizeSafelyOverflowingIndexQueue<C> {
+    const CAP: usize = C;
+    const OVERFLOW: bool = true;
+    fn mk() -> Self { Self::new() }
+    fn do_push(&self, v: u64) -> PushR { match unsafe { self.push(v) } { None => PushR::Ok, Some(e) => PushR::Evicted(e) } }
+    fn do_pop(&self) -> Option<u64> { unsafe { self.pop() } }
+    fn q_len(&self) -> usize { self.len() }
+    fn q_empty(&self) -> bool { self.is_empty() }
+    fn q_full(&self) -> bool { self.is_full() }
+    fn q_cap(&self) -> usize { self.capacity() }
+}
+
+impl<const C: usize> SpscLike for SpscQueue<u64, C> {
+    const CAP: usize = C;
+    const OVERFLOW: bool = false;
+    fn mk() -> Self { Self::new() }
+    fn do_push(&self, v: u64) -> PushR { if unsafe { self.push(&v) } { PushR::Ok } else { PushR::Full } }
+    fn do_pop(&self) -> Option<u64> { unsafe { self.pop() } }
+    fn q_len(&self) -> usize { self.len() }
+    fn q_empty(&self) -> bool { self.is_empty() }
+    fn q_full(&self) -> bool { self.is_full() }
+    fn q_cap(&self) -> usize { self.capacity() }
+}
+
+/// heap-backed (OwningPointer) flavours, capacity chosen at run time
+pub struct OwnIq(IndexQueue);
+impl SpscLike for OwnIq {
+    const CAP: usize = 2;
+    const OVERFLOW: bool = false;
+    fn mk() -> Self { OwnIq(IndexQueue::new(2)) }
+    fn do_push(&self, v: u64) -> PushR { if unsafe { self.0.push(v) } { PushR::Ok } else { PushR::Full } }
+    fn do_pop(&self) -> Option<u64> { unsafe { self.0.pop() } }
+    fn q_len(&self) -> usize { self.0.len() }
+    fn q_empty(&self) -> bool { self.0.is_empty() }
+    fn q_full(&self) -> bool { self.0.is_full() }
+    fn q_cap(&self) -> usize { self.0.capacity() }
+}
+pub struct OwnSoiq(SafelyOverflowingIndexQueue);
+impl SpscLike for OwnSoiq {
+    const CAP: usize = 2;
+    const OVERFLOW: bool = true;
+    fn mk() -> Self { OwnSoiq(SafelyOverflowingIndexQueue::new(2)) }
+    fn do_push(&self, v: u64) -> PushR { match unsafe { self.0.push(v) } { None => PushR::Ok, Some(e) => PushR::Evicted(e) } }
+    fn do_pop(&self) -> Option<u64> { unsafe { self.0.pop() } }
+    fn q_len(&self) -> usize { self.0.len() }
+    fn q_empty(&self) -> bool { self.0.is_empty() }
+    fn q_full(&self) -> bool { self.0.is_full() }
+    fn q_cap(&self) -> usize { self.0.capacity() }
+}
+
+/// Sequential history: STEPS symbolic push/pop operations with symbolic values against a FIFO.
+fn seq_history<Q: SpscLike, const CAP: usize, const STEPS: usize>() {
+    let q = Q::mk();
+    let mut m = Fifo::<CAP>::new();
+    let mut wraps = 0usize;
+    let mut evicted = false;
+    let mut refused = false;
+    let mut step = 0;
+    while step < STEPS {
+        if kani::any() {
+            let v: u64 = kani::any();
+            match q.do_push(v) {
+                PushR::Ok => {
+                    assert!(m.len < CAP, "c03: push succeeded on a full queue without eviction");
+                    m.push(v);
+                }
+                PushR::Full => {
+                    assert!(!Q::OVERFLOW);
+                    assert!(m.len == CAP, "c03: push refused although the queue is not full");
+                    refused = true;
+                }
+                PushR::Evicted(e) => {
+                    assert!(Q::OVERFLOW);
+                    assert!(m.len == CAP, "c03: eviction although the queue is not full");
+                    assert!(m.pop() == Some(e), "c03: evicted element is not the oldest");
+                    m.push(v);
+                    evicted = true;
+                }
+            }
+            wraps += 1;
+        } else {
+            let r = q.do_pop();
+            assert!(r == m.pop(), "c03: pop differs from the FIFO model");
+        }
+        assert!(q.q_len() == m.len);
+        assert!(q.q_empty() == (m.len == 0));
+        assert!(q.q_full() == (m.len == CAP));
+        assert!(q.q_cap() == CAP);
+        step += 1;
+    }
+    // drain: nothing lost, nothing invented
+    let mut k = 0;
+    while k <= CAP {
+        let r = q.do_pop();
+        assert!(r == m.pop(), "c03: final content differs from the FIFO model");
+        k += 1;
+    }
+    kani::cover!(wraps > CAP + 1, "ring wrapped around");
+    kani::cover!(evicted || refused, "full queue hit");
+}
+
+proof!(9, fn c03_seq_index_queue() { seq_history::<FixedSizeIndexQueue<2>, 2, 6>(); canaries(); });
+proof!(9, fn c03_seq_overflow_queue() { seq_history::<FixedSizeSafelyOverflowingIndexQueue<2>, 2, 6>(); canaries(); });
+proof!(9, fn c03_seq_spsc_queue() { seq_history::<SpscQueue<u64, 2>, 2, 6>(); canaries(); });
+proof!(9, fn c03_seq_index_queue_owning() { seq_history::<OwnIq, 2, 5>(); canaries(); });
+proof!(9, fn c03_seq_overflow_queue_owning() { seq_history::<OwnSoiq, 2, 5>(); canaries(); });
+proof!(11, fn c03_seq_index_queue_cap3() { seq_history::<FixedSizeIndexQueue<3>, 3, 8>(); canaries(); });
+proof!(11, fn c03_seq_overflow_queue_cap3() { seq_history::<FixedSizeSafelyOverflowingIndexQueue<3>, 3, 8>(); canaries(); });
+proof!(11, fn c03_seq_spsc_queue_cap3() { seq_history::<SpscQueue<u64, 3>, 3, 8>(); canaries(); });
+proof!(9, fn c03_seq_index_queue_cap1() { seq_history::<FixedSizeIndexQueue<1>, 1, 5>(); canaries(); });
+proof!(9, fn c03_seq_overflow_queue_cap1() { seq_history::<FixedSizeSafelyOverflowingIndexQueue<1>, 1, 5>(); canaries(); });
+
+/// producer / consumer hand-over: at most one producer and one consumer handle at a time; a
+/// dropped handle can be re-acquired and continues on the same state.
+proof!(6, fn c03_handover() {
+    let q = FixedSizeIndexQueue::<2>::new();
+    let v: u64 = kani::any();
+    {
+        let mut p = q.acquire_producer().unwrap();
+        assert!(q.acquire_producer().is_none(), "c03: two producers at once");
+        assert!(p.push(v));
+    }
+    let mut p2 = q.acquire_producer().unwrap();
+    assert!(p2.push(v.wrapping_add(1)));
+    {
+        let mut c = q.acquire_consumer().unwrap();
+        assert!(q.acquire_consumer().is_none(), "c03: two consumers at once");
+        assert!(c.pop() == Some(v));
+    }
+    let mut c2 = q.acquire_consumer().unwrap();
+    assert!(c2.pop() == Some(v.wrapping_add(1)));
+    assert!(c2.pop().is_none());
+    let o = FixedSizeSafelyOverflowingIndexQueue::<1>::new();
+    {
+        let mut p = o.acquire_producer().unwrap();
+        assert!(o.acquire_producer().is_none());
+        assert!(p.push(v).is_none());
+        assert!(p.push(7) == Some(v));
+    }
+    assert!(o.acquire_producer().is_some());
+    let mut c = o.acquire_consumer().unwrap();
+    assert!(o.acquire_consumer().is_none());
+    assert!(c.pop() == Some(7));
+    canaries();
+});
+
+// ==========================================================================================
+// engine S: schedule-symbolic harnesses (nested preemption)
+// ==========================================================================================
+
+#[cfg(feature = "sched")]
+pub mod sched {
+    use super::*;
+    use iceoryx2_pal_concurrency_sync::verif_atomic::{verif_clear_hook, verif_set_hook};
+
+    pub const MAXV: usize = 8;
+
+    /// bookkeeping shared between the outer thread body and the hook (inner thread)
+    pub struct Book {
+        pub next_val: u64,          // next value to push (values are 1, 2, 3, ...)
+        pub pushed_ok: usize,       // pushes that entered the queue
+        pub refused: [bool; MAXV],  // value was refused (never entered)
+        pub popped: [u64; MAXV],
+        pub npop: usize,
+        pub evicted: [u64; MAXV],
+        pub nev: usize,
+        pub inner_budget: usize,    // complete inner operations still allowed
+        pub in_inner: u8,           // 1 = inside an inner operation, 2 = not
+        pub inner_ran_mid_op: bool, // witness: an inner op ran while an outer op was in flight
+        pub outer_in_flight: u8,    // 1 = outer op between its first and last shared op
+        pub empty_pops: usize,
+        pub bad_empty: bool,
+        pub bad_refuse: bool,
+    }
+
+    pub static mut BOOK: Book = Book {
+        next_val: 1, pushed_ok: 0, refused: [false; MAXV], popped: [0; MAXV], npop: 0, evicted: [0; MAXV], nev: 0,
+        inner_budget: 0, in_inner: 2, inner_ran_mid_op: false, outer_in_flight: 2, empty_pops: 0, bad_empty: false,
+        bad_refuse: false,
+    };
+
+    pub fn model_len(b: &Book) -> usize {
+        b.pushed_ok - b.npop - b.nev
+    }
+
+    pub fn push_op<Q: SpscLike>(q: &Q) {
+        unsafe {
+            let b = &mut BOOK;
+            let v = b.next_val;
+            b.next_val += 1;
+            let len_at_start = model_len(b);
+            match q.do_push(v) {
+                PushR::Ok => b.pushed_ok += 1,
+                PushR::Full => {
+                    b.refused[v as usize] = true;
+                    // a refusal is legitimate only if the queue was full at some instant of the
+                    // call; while a push is in flight the other side can only pop, so the
+                    // longest it ever was is its length at the start
+                    if len_at_start < Q::CAP {
+                        b.bad_refuse = true;
+                    }
+                }
+                PushR::Evicted(e) => {
+                    b.pushed_ok += 1;
+                    b.evicted[b.nev] = e;
+                    b.nev += 1;
+                }
+            }
+        }
+    }
+
+    pub fn pop_op<Q: SpscLike>(q: &Q) {
+        unsafe {
+            let b = &mut BOOK;
+            let len_at_start = model_len(b);
+            match q.do_pop() {
+                Some(v) => {
+                    b.popped[b.npop] = v;
+                    b.npop += 1;
+                }
+                None => {
+                    b.empty_pops += 1;
+                    // while a pop is in flight the other side can only push: the shortest the
+                    // queue ever was is its length at the start
+                    if len_at_start != 0 {
+                        b.bad_empty = true;
+                    }
+                }
+            }
+        }
+    }
+
+    /// conservation + order + bounds, evaluated after both threads are done
+    pub fn final_checks<Q: SpscLike>(q: &Q) {
+        unsafe {
+            verif_clear_hook();
+            let b = &mut BOOK;
+            let mut rest = [0u64; MAXV];
+            let mut nrest = 0;
+            let mut k = 0;
+            while k <= Q::CAP {
+                if let Some(v) = q.do_pop() {
+                    rest[nrest] = v;
+                    nrest += 1;
+                }
+                k += 1;
+            }
+            assert!(q.do_pop().is_none(), "c03: more elements in the queue than its capacity");
+            assert!(nrest <= Q::CAP);
+            let pushed = (b.next_val - 1) as usize;
+            let mut seen = [0u8; MAXV];
+            let mut i = 0;
+            while i < MAXV {
+                if i < b.npop {
+                    assert!(b.popped[i] >= 1 && (b.popped[i] as usize) <= pushed, "c03: popped a value that was never pushed");
+                    seen[b.popped[i] as usize] += 1;
+                }
+                if i < b.nev {
+                    assert!(b.evicted[i] >= 1 && (b.evicted[i] as usize) <= pushed, "c03: evicted a value that was never pushed");
+                    seen[b.evicted[i] as usize] += 1;
+                }
+                if i < nrest {
+                    assert!(rest[i] >= 1 && (rest[i] as usize) <= pushed, "c03: queue contains a value that was never pushed");
+                    seen[rest[i] as usize] += 1;
+                }
+                i += 1;
+            }
+            let mut v = 1;
+            while v < MAXV {
+                if v <= pushed {
+                    if b.refused[v] {
+                        assert!(seen[v] == 0, "c03: a refused value showed up");
+                    } else {
+                        assert!(seen[v] == 1, "c03: a value was lost or duplicated");
+                    }
+                }
+                v += 1;
+            }
+            // order: the consumer sees values in push order; what is left is newer than anything popped
+            let mut i = 1;
+            while i < MAXV {
+                if i < b.npop {
+                    assert!(b.popped[i - 1] < b.popped[i], "c03: consumer saw values out of push order");
+                }
+                if i < nrest {
+                    assert!(rest[i - 1] < rest[i], "c03: remaining content out of push order");
+                }
+                if i < b.nev {
+                    assert!(b.evicted[i - 1] < b.evicted[i], "c03: evictions out of push order");
+                }
+                i += 1;
+            }
+            if b.npop > 0 && nrest > 0 {
+                assert!(b.popped[b.npop - 1] < rest[0], "c03: consumer overtook the queue content");
+            }
+            assert!(!b.bad_refuse, "c03: push refused although the queue was never full during the call");
+            assert!(!b.bad_empty, "c03: pop returned None although the queue was never empty during the call");
+        }
+    }
+
+    pub static mut QPTR: usize = 1;
+
+    pub fn hook_inner_pop<Q: SpscLike>() {
+        unsafe {
+            let b = &mut BOOK;
+            if b.in_inner == 1 {
+                return;
+            }
+            b.in_inner = 1;
+            if b.inner_budget > 0 && kani::any::<bool>() {
+                b.inner_budget -= 1;
+                if b.outer_in_flight == 1 {
+                    b.inner_ran_mid_op = true;
+                }
+                pop_op::<Q>(&*(QPTR as *const Q));
+            }
+            b.in_inner = 2;
+        }
+    }
+
+    pub fn hook_inner_push<Q: SpscLike>() {
+        unsafe {
+            let b = &mut BOOK;
+            if b.in_inner == 1 {
+                return;
+            }
+            b.in_inner = 1;
+            if b.inner_budget > 0 && kani::any::<bool>() {
+                b.inner_budget -= 1;
+                if b.outer_in_flight == 1 {
+                    b.inner_ran_mid_op = true;
+                }
+                push_op::<Q>(&*(QPTR as *const Q));
+            }
+            b.in_inner = 2;
+        }
+    }
+
+    /// outer = producer doing P pushes; at each of its shared-memory operations up to C complete
+    /// pops of the consumer may run.  PRE elements are pushed before the race starts.
+    pub fn producer_outer<Q: SpscLike, const PRE: usize, const P: usize, const C: usize>() {
+        let q = Q::mk();
+        unsafe {
+            QPTR = &q as *const Q as usize;
+            let mut i = 0;
+            while i < PRE {
+                push_op(&q);
+                i += 1;
+            }
+            BOOK.inner_budget = C;
+            verif_set_hook(hook_inner_pop::<Q>);
+            let mut i = 0;
+            while i < P {
+                BOOK.outer_in_flight = 1;
+                push_op(&q);
+                BOOK.outer_in_flight = 2;
+                // between two outer operations
+                hook_inner_pop::<Q>();
+                i += 1;
+            }
+            final_checks(&q);
+            kani::cover!(BOOK.inner_ran_mid_op && BOOK.npop > 0, "a pop ran inside a push and returned a value");
+            if Q::OVERFLOW {
+                kani::cover!(BOOK.nev > 0 && BOOK.inner_ran_mid_op, "eviction raced with a pop");
+            } else {
+                kani::cover!(BOOK.inner_ran_mid_op && BOOK.pushed_ok == PRE + P, "all pushes accepted thanks to concurrent pops");
+            }
+        }
+    }
+
+    /// outer = consumer doing C pops; at each of its shared-memory operations up to P complete
+    /// pushes of the producer may run.
+    pub fn consumer_outer<Q: SpscLike, const PRE: usize, const P: usize, const C: usize>() {
+        let q = Q::mk();
+        unsafe {
+            QPTR = &q as *const Q as usize;
+            let mut i = 0;
+            while i < PRE {
+                push_op(&q);
+                i += 1;
+            }
+            BOOK.inner_budget = P;
+            verif_set_hook(hook_inner_push::<Q>);
+            let mut i = 0;
+            while i < C {
+                BOOK.outer_in_flight = 1;
+                pop_op(&q);
+                BOOK.outer_in_flight = 2;
+                hook_inner_push::<Q>();
+                i += 1;
+            }
+            final_checks(&q);
+            kani::cover!(BOOK.inner_ran_mid_op && BOOK.npop == C, "pushes ran inside pops and every pop returned a value");
+            if Q::OVERFLOW {
+                kani::cover!(BOOK.nev > 0 && BOOK.inner_ran_mid_op && BOOK.npop > 0, "an evicting push ran inside a pop");
+            }
+        }
+    }
+
+    // ---- quick tier: capacity 2 ------------------------------------------------------------
+    proof!(10, fn c03_s_overflow_producer_outer() { producer_outer::<FixedSizeSafelyOverflowingIndexQueue<2>, 1, 2, 1>(); canaries(); });
+    proof!(10, fn c03_s_overflow_consumer_outer() { consumer_outer::<FixedSizeSafelyOverflowingIndexQueue<2>, 2, 2, 1>(); canaries(); });
+    proof!(10, fn c03_s_index_producer_outer() { producer_outer::<FixedSizeIndexQueue<2>, 1, 2, 1>(); canaries(); });
+    proof!(10, fn c03_s_index_consumer_outer() { consumer_outer::<FixedSizeIndexQueue<2>, 1, 2, 2>(); canaries(); });
+    proof!(10, fn c03_s_spsc_producer_outer() { producer_outer::<SpscQueue<u64, 2>, 1, 2, 1>(); canaries(); });
+    proof!(10, fn c03_s_spsc_consumer_outer() { consumer_outer::<SpscQueue<u64, 2>, 1, 2, 2>(); canaries(); });
+
+    // ---- thorough tier ---------------------------------------------------------------------
+    proof!(10, fn c03_s_overflow_producer_outer_deep() { producer_outer::<FixedSizeSafelyOverflowingIndexQueue<2>, 1, 3, 2>(); canaries(); });
+    proof!(10, fn c03_s_overflow_consumer_outer_deep() { consumer_outer::<FixedSizeSafelyOverflowingIndexQueue<2>, 2, 3, 2>(); canaries(); });
+    proof!(10, fn c03_s_overflow_cap1_producer_outer() { producer_outer::<FixedSizeSafelyOverflowingIndexQueue<1>, 1, 3, 2>(); canaries(); });
+    proof!(10, fn c03_s_overflow_cap1_consumer_outer() { consumer_outer::<FixedSizeSafelyOverflowingIndexQueue<1>, 1, 3, 2>(); canaries(); });
+    proof!(10, fn c03_s_index_producer_outer_deep() { producer_outer::<FixedSizeIndexQueue<2>, 2, 3, 2>(); canaries(); });
+    proof!(10, fn c03_s_index_consumer_outer_deep() { consumer_outer::<FixedSizeIndexQueue<2>, 1, 3, 3>(); canaries(); });
+    proof!(10, fn c03_s_spsc_producer_outer_deep() { producer_outer::<SpscQueue<u64, 2>, 2, 3, 2>(); canaries(); });
+    proof!(10, fn c03_s_spsc_consumer_outer_deep() { consumer_outer::<SpscQueue<u64, 2>, 1, 3, 3>(); canaries(); });
+}
